@@ -734,6 +734,11 @@ package ring
 //@   trusted opaque at the abstract level (a rounded division by the last modulus is not a ring operation; coefficient-level contract: property C02): writes the output and the buffer
 //@   assigns buff, p1
 
+//@ afunc Ring.MulRNSScalarMontgomery
+//@   trusted the Montgomery product with an RNS scalar; the ring value and the Montgomery exponent of the scalar are NAMED by uninterpreted functions of its contents (uf_rnsval, uf_rnsmexp)
+//@   assigns p2
+//@   ensures val(p2) == old(val(p1)) * uf_rnsval(contentid(scalar)) && mexp(p2) == old(mexp(p1)) + uf_rnsmexp(contentid(scalar)) - 1 && dom(p2) == old(dom(p1))
+
 //@ afunc Ring.MulScalarThenSub
 //@   trusted the ring-element reading of the row-level contract func Ring.MulScalarThenSub; the zero element is zero in every domain and Montgomery form, so an accumulator that holds it takes the representation of p1
 //@   requires (((isntt(p1) && isntt(p2)) || (iscoef(p1) && iscoef(p2))) && mexp(p1) == mexp(p2)) || val(p2) == 0
